@@ -80,9 +80,27 @@ def gen_scripts(ctx, quick):
         steps += [{"op": "manage", "m": 0, "ok": True}] + [F(m) for m in reversed(chain)] * 2 + [F(4)] * (1 if n == 4 else 0) + \
                  [{"op": "manage", "m": 0, "ok": True}, {"op": "shutdown", "m": 0, "ok": True}] + [F(m) for m in range(n, 0, -1)] * 2
         scripts.append({"n": n, "mgmt": True, "deps": deps, "enabled": en, "steps": steps, "directed": "chaindrop"})
+    # directed: a management pass in which the start of a wanted module fails is followed by another pass without any
+    # change of the enabled set: the second pass has to try again (and may only return nil with the module online)
+    A = lambda op: {"op": op, "m": 0, "ok": True}
+    for deps in ([[], [1]], [[], []], [[], [1], [2]]):
+        n = len(deps)
+        steps = [A("start")] + [F(m) for m in range(1, n + 1)] + [F(m) for m in range(1, n)] + [T(n, True), A("manage"), F(n, False),
+                 A("manage"), F(n), A("manage"), A("shutdown")] + [F(m) for m in range(n, 0, -1)] * 2
+        scripts.append({"n": n, "mgmt": True, "deps": deps, "enabled": [m < n for m in range(1, n + 1)], "steps": steps,
+                        "directed": "remanage"})
+    # directed: a module is stopped and started again by module management, then stopped a second time together with the
+    # module it depends on: the second stop has to wait for its stop routine like the first did
+    for deps in ([[], [1]], [[], [1], [2]]):
+        n = len(deps)
+        steps = [A("start")] + [F(m) for m in range(1, n + 1)] * 2 + [T(n, False), A("manage"), F(n), T(n, True), A("manage"), F(n)]
+        for last in ("shutdown", "manage"):
+            tail = ([A("shutdown")] if last == "shutdown" else [T(m, False) for m in range(1, n + 1)] + [A("manage")]) + \
+                   [F(n - 1), F(n)] + [F(m) for m in range(n - 1, 0, -1)] * 2
+            scripts.append({"n": n, "mgmt": True, "deps": deps, "enabled": [True] * n, "steps": steps + tail, "directed": "restop"})
     rnd = random.Random(ctx.seed)
     for i, s in enumerate(scripts):
-        s["eager"] = (i % 2 == 0 or bool(s.get("directed"))) and s.get("directed") not in ("starttimeout", "chaindrop")   # an adversarial environment: the next API call follows a return at once
+        s["eager"] = (i % 2 == 0 or bool(s.get("directed"))) and s.get("directed") not in ("starttimeout", "chaindrop", "remanage", "restop")   # an adversarial environment: the next API call follows a return at once
         for st in s["steps"]:
             if st["op"] == "finish" and not st["ok"]:
                 st["how"] = rnd.choice(["error", "panic", "canceled"])
